@@ -968,8 +968,17 @@ class Executor(Generic[TContext]):
         # The abort signal fired (possibly in the same tick the task settled);
         # discard any task result and reject with the abort reason.
         task.cancel()
-        with suppress(BaseException):
-            await task
+        try:
+            # wait() does not raise the outcome of the task, so a CancelledError
+            # raised here can only mean that we have been cancelled ourselves
+            await wait({task})
+        except CancelledError:
+            # This must not be swallowed, otherwise whoever cancelled us would
+            # wait for ever; the task is then settled in the background.
+            self.settle_in_background([task])
+            raise
+        if not task.cancelled():
+            task.exception()  # mark as retrieved
         raise self.abort_error()
 
     def abort_error(self) -> Exception:
